@@ -35,6 +35,9 @@ type pacedConn struct {
 	delay time.Duration
 	pause map[int]time.Duration // extra pause before the n-th write
 	n     int
+	// eotDelay: pause before the two-byte EOT+checksum write that ends a transfer (the last data block has been
+	// handed over, the function has not returned yet: a reporting tick falls in between)
+	eotDelay time.Duration
 }
 
 func (p *pacedConn) Write(b []byte) (int, error) {
@@ -44,6 +47,9 @@ func (p *pacedConn) Write(b []byte) (int, error) {
 	}
 	if p.delay > 0 {
 		time.Sleep(p.delay)
+	}
+	if p.eotDelay > 0 && len(b) == 2 && b[0] == 4 {
+		time.Sleep(p.eotDelay)
 	}
 	return p.memConn.Write(b)
 }
@@ -116,8 +122,11 @@ func init() {
 			ca.DetectDeadlock()
 			pa := &pacedConn{memConn: ca, pause: map[int]time.Duration{}}
 			pb := &pacedConn{memConn: cb, pause: map[int]time.Duration{}}
-			mode := i % 4
+			mode := i % 5
 			switch mode {
+			case 4:
+				// more than one reporting period between the last data block and the end of the transfer
+				pa.eotDelay = time.Duration(300+c.Rng.Intn(300)) * time.Millisecond
 			case 1:
 				pa.delay = time.Duration(1+c.Rng.Intn(3)) * time.Millisecond
 			case 2:
